@@ -419,6 +419,19 @@ package semver
 //@            (compare(s.max, v) > 0 || (compare(s.max, v) == 0 && !s.maxOpen))))
 //@   property C09
 
+// Normal (prerelease-restricted) matching, node-semver's rule: for a version
+// that is not a prerelease it is interval matching; a prerelease version is
+// admitted only through a bound that was itself written with a prerelease
+// (the synthetic lower bound 0.0.0-0 of `<V` is not such a bound).
+//@ lemma span.contains.normal
+//@   vars s span; v *Version
+//@   unfold span.contains equalValues
+//@   requires v != nil && imp(s.rank != empty, s.min != nil && s.max != nil)
+//@   ensures imp(!v.isPrerelease || v.sys == Maven, s.contains(v, false) == s.contains(v, true))
+//@   ensures imp(v.isPrerelease && v.sys != Maven && s.rank == vector && !s.min.isPrerelease && !s.max.isPrerelease, !s.contains(v, false))
+//@   ensures imp(s.contains(v, false), s.contains(v, true))
+//@   property C03
+
 // newSpan: a unit span is closed at both ends and holds exactly its one version;
 // a vector span keeps the flags it was given and has min strictly below max;
 // equal ends with an open flag give the empty span.
@@ -435,6 +448,60 @@ package semver
 //@   ensures imp(old(noMarker(min, wildcard)) && old(noMarker(max, wildcard)) && result1 == nil,
 //@           result0.rank == ite(compare(min, max) < 0, vector, ite(minOpen || maxOpen, empty, unit)) &&
 //@           imp(result0.rank != empty, result0.min == min))
+//@   property C09
+
+// Three-number versions compare by their numbers, first difference deciding;
+// with equal numbers a prerelease is below the release (used where compare
+// is referenced by symbol, C03).
+//@ pred lexLess3(a *Version, b *Version) = a.num[0] < b.num[0] || (a.num[0] == b.num[0] && (a.num[1] < b.num[1] || (a.num[1] == b.num[1] && a.num[2] < b.num[2])))
+//@ pred lexEq3(a *Version, b *Version) = a.num[0] == b.num[0] && a.num[1] == b.num[1] && a.num[2] == b.num[2]
+//@ lemma compare.plain.nums3
+//@   vars a, b *Version
+//@   unfold compare
+//@   requires plain(a) && plain(b) && sameSys(a, b) && len(a.num) == 3 && len(b.num) == 3
+//@   ensures imp(lexLess3(a, b), compare(a, b) < 0)
+//@   ensures imp(lexEq3(a, b) && len(a.pre) == 0 && len(b.pre) == 0, compare(a, b) == 0)
+//@   ensures imp(lexEq3(a, b) && len(a.pre) > 0 && len(b.pre) == 0, compare(a, b) < 0)
+//@   ensures imp(len(a.pre) == 0 && len(b.pre) == 0 && compare(a, b) < 0, lexLess3(a, b))
+//@   ensures imp(len(a.pre) == 0 && len(b.pre) == 0 && compare(a, b) == 0, lexEq3(a, b))
+//@   ensures imp(lexLess3(b, a), compare(a, b) > 0)
+//@   ensures imp(len(a.pre) == 0 && len(b.pre) == 0 && compare(a, b) > 0, lexLess3(b, a))
+//@   pattern compare(a, b)
+//@   property C03
+//@   export
+
+// canon, where it merges two spans (release bounds with three numbers, same
+// system, `this` sorted before `next`): for an arbitrary three-number release
+// version v: where a covered span only adjusts the end flag, lying in either
+// span is the same as lying in the adjusted one; where two spans are merged,
+// whatever lies in either lies in the merged span. (That the merged span adds
+// nothing is NOT established: it needs frames of inc/setNum that are not proved
+// here, and it is where the known defects of canon live.)
+// Membership is stated over the numbers (in3); the lemma span.contains.rel3
+// ties it to span.contains for such spans and versions.
+//@ pred rel3(x *Version) = plain(x) && okNums3(x) && len(x.pre) == 0
+//@ pred rel3b(x *Version) = rel3(x) && backed(x.num, &x.buf)
+//@ pred in3(lo *Version, loOpen bool, hi *Version, hiOpen bool, v *Version) =
+//@      (lexLess3(lo, v) || (lexEq3(lo, v) && !loOpen)) && (lexLess3(v, hi) || (lexEq3(v, hi) && !hiOpen))
+//@ pred span3(sp span) = okSpan(sp) && rel3b(sp.min) && rel3b(sp.max) && imp(sp.rank == vector, lexLess3(sp.min, sp.max))
+//@ lemma span.contains.rel3
+//@   vars s span; v *Version
+//@   unfold span.contains
+//@   uses compare.plain.nums3
+//@   requires span3(s) && rel3(v) && sameSys(v, s.min)
+//@   ensures s.contains(v, true) == in3(s.min, s.minOpen, s.max, s.maxOpen, v)
+//@   property C09
+//@ pred mergeable(this span, next span, v *Version) = span3(this) && span3(next) && rel3(v) &&
+//@      sameSys(this.min, next.min) && sameSys(v, this.min) &&
+//@      (lexLess3(this.min, next.min) || (lexEq3(this.min, next.min) && imp(this.minOpen, next.minOpen)))
+//@ func canon
+//@   uses compare.plain.nums3
+//@   assert at "this.maxOpen = this.maxOpen && next.maxOpen": imp(mergeable(this, next, arb(v, "*Version")),
+//@          iff(in3(this.min, this.minOpen, this.max, this.maxOpen, arb(v, "*Version")) || in3(next.min, next.minOpen, next.max, next.maxOpen, arb(v, "*Version")),
+//@              in3(this.min, this.minOpen, this.max, this.maxOpen && next.maxOpen, arb(v, "*Version"))))
+//@   assert at "this.rank = vector": imp(mergeable(this, next, arb(v, "*Version")) &&
+//@          (in3(this.min, this.minOpen, this.max, this.maxOpen, arb(v, "*Version")) || in3(next.min, next.minOpen, next.max, next.maxOpen, arb(v, "*Version"))),
+//@              in3(this.min, this.minOpen, next.max, next.maxOpen, arb(v, "*Version")))
 //@   property C09
 
 // ---------------------------------------------------------------------------
@@ -563,24 +630,8 @@ package semver
 //@   ensures imp(compare(a, b) <= 0 && compare(b, c) <= 0, compare(a, c) <= 0)
 //@   ensures imp(compare(a, b) <= 0 && compare(b, c) < 0, compare(a, c) < 0)
 //@   ensures imp(compare(a, b) < 0 && compare(b, c) <= 0, compare(a, c) < 0)
-//@   pattern compare(a, b); compare(b, c)
+//@   pattern compare(a, b); compare(b, c); compare(a, c)
 //@   property C09
-//@   export
-
-// Three-number versions compare by their numbers, first difference deciding;
-// with equal numbers a prerelease is below the release (used where compare
-// is referenced by symbol, C03).
-//@ pred lexLess3(a *Version, b *Version) = a.num[0] < b.num[0] || (a.num[0] == b.num[0] && (a.num[1] < b.num[1] || (a.num[1] == b.num[1] && a.num[2] < b.num[2])))
-//@ pred lexEq3(a *Version, b *Version) = a.num[0] == b.num[0] && a.num[1] == b.num[1] && a.num[2] == b.num[2]
-//@ lemma compare.plain.nums3
-//@   vars a, b *Version
-//@   unfold compare
-//@   requires plain(a) && plain(b) && sameSys(a, b) && len(a.num) == 3 && len(b.num) == 3
-//@   ensures imp(lexLess3(a, b), compare(a, b) < 0)
-//@   ensures imp(lexEq3(a, b) && len(a.pre) == 0 && len(b.pre) == 0, compare(a, b) == 0)
-//@   ensures imp(lexEq3(a, b) && len(a.pre) > 0 && len(b.pre) == 0, compare(a, b) < 0)
-//@   pattern compare(a, b)
-//@   property C03
 //@   export
 
 // Set.Intersect, at the point where the bounds of the overlap have been
@@ -633,6 +684,17 @@ package semver
 //@ func (*Version).Canon
 //@   trusted
 //@   ensures touches()
+
+// copy returns a new object and changes nothing that existed before; a three-number version keeps its system, numbers (now in
+// the copy's own buffer) and the length of its prerelease list.
+//@ func (*Version).copy
+//@   requires v != nil
+//@   ensures fresh(result)
+//@   ensures touches()
+//@   ensures imp(old(v.ext == nil) && old(len(v.num) == 3), result.ext == nil && result.sys == v.sys && len(result.num) == 3 && backed(result.num, &result.buf) &&
+//@           imp(old(backed(v.num, &v.buf)), result.num[0] == v.num[0] && result.num[1] == v.num[1] && result.num[2] == v.num[2]) &&
+//@           len(result.pre) == len(v.pre) && result.isPrerelease == v.isPrerelease && result.build == v.build)
+//@   property C03
 
 // all: every number equals val.
 //@ func (*Version).all
